@@ -52,6 +52,8 @@ def run(args):
         finally:
             S.POLY = False
         rep.obligation(ok, lambda f=f, t=t: C.Finding("C03", "R-FWD.angle", f["name"], "angle() is not atan2(imag(), real()): %s" % t[:160], f["file"], f["line"]))
+    nh = RJ.half_turn(rep, "C03")
+    rep.floor("half_turn_cases", nh, 2)
     from . import rules_series
     ns = rules_series.check(rep, "C03", {"log"})
     rep.floor("series_cells", ns, 30)
@@ -64,6 +66,7 @@ def run(args):
         "R-JET / R-DIV (C03.b): SE2::log and SO3Tangent::ljacinv (V^-1) arms meet within 1e-9 (double) / 1e-4 (float); no division by a vanishing quantity on the small-angle side",
         "R-FWD.delegation: SE3 / SE_2_3 / SGal3 log obtain the rotation part from SO3::log and the linear parts through ljacinv of that tangent",
         "R-FWD.angle (C03.c): SO2/SE2 angle() = atan2(imag, real)",
+        "R-JET.halfturn (C03.e): SO3::log evaluated at the exact half turn (quaternion (v, +-0), |v| = 1; every comparison decided by exact substitution) returns pi * v",
         "R-SERIES.log (C03.d): for SO2, SE2, SO3, SE3, SE_2_3, SGal3 the code of log applied to the code of exp, both interpreted over truncated power series in the tangent (engine/jetnum.py; closed-form arms, hemisphere w > 0), gives log(exp t) = t + O(|t|^6) coefficient by coefficient: log inverts exp through order 5 at the origin, in every direction",
     ]
     rep.units = ["SO2/SE2/SO3/SE3/SE_2_3/SGal3 double drivers"]
